@@ -15,21 +15,7 @@ __CPROVER_requires(x >= 0.0 && x <= 1.0)
 __CPROVER_assigns()
 __CPROVER_ensures(__CPROVER_return_value >= 0.0 && __CPROVER_return_value <= 1.0);
 
-/* which operators are carriers (output directly) per algorithm: YM2612 manual; slot order OP1,OP3,OP2,OP4 as in the register file */
-#define SPEC_IS_CARRIER(alg, op) ((op) == 3 || ((alg) >= 4 && (op) == 2) || ((alg) >= 5 && (op) == 1) || ((alg) == 7))
-#define SPEC_CH_CHIP(c) ((c) / 6)
-#define SPEC_CH_PORT(c) ((((c) % 6) < 3) ? 0 : 1)
-#define SPEC_CH_CC(c)   (((c) % 6) % 3)
-
-/* ghost copies of the instrument levels, so that a counterexample names them */
-extern uint8_t in_op_level[4]; extern uint8_t in_alg;
-
-#define SPEC_TL_WRITE_OK(k, c) \
-    (g_tap[k].chip == SPEC_CH_CHIP(c) && g_tap[k].port == SPEC_CH_PORT(c) && !g_tap[k].is_pan && \
-     g_tap[k].addr == 0x40 + SPEC_CH_CC(c) + 4 * (k) && g_tap[k].val <= 127)
-#define SPEC_SILENT(v, cv, ce) ((cv) == 0 || (ce) == 0 || g_synth.m_masterVolume == 0)   /* the statement names volume, expression, master volume - not velocity */
-#define SPEC_CARRIER_SILENCED(k) (!SPEC_IS_CARRIER(in_alg, k) || g_tap[k].val == 127)
-#define SPEC_MOD_UNTOUCHED(k) (SPEC_IS_CARRIER(in_alg, k) || g_tap[k].val == (in_op_level[k] & 127))   /* the instrument's own 7-bit level */
+#include "opn2_spec.h"
 
 void touchNote(size_t c, uint_fast32_t velocity, uint_fast32_t channelVolume, uint_fast32_t channelExpression, uint8_t brightness)
 __CPROVER_requires(ENV_SYNTH_INV && c < g_synth.m_numChannels)
@@ -41,14 +27,11 @@ __CPROVER_requires(in_alg == (g_insCache_storage[c].fbalg & 7) && in_op_level[0]
                    in_op_level[3] == g_insCache_storage[c].OPS[3].data[1])
 /* frame: nothing but the four register writes */
 __CPROVER_assigns(g_tap_n, __CPROVER_object_whole(g_tap))
-__CPROVER_ensures(g_tap_n == 4)
 /* exactly the four total-level registers of this channel, values inside the chip's 0..127 range */
-__CPROVER_ensures(SPEC_TL_WRITE_OK(0, c) && SPEC_TL_WRITE_OK(1, c) && SPEC_TL_WRITE_OK(2, c) && SPEC_TL_WRITE_OK(3, c))
+__CPROVER_ensures(SPEC_TOUCHNOTE_POST_RANGE(c))
 /* a zero volume, expression or master volume silences every carrier */
-__CPROVER_ensures(SPEC_SILENT(velocity, channelVolume, channelExpression) ==>
-                  (SPEC_CARRIER_SILENCED(0) && SPEC_CARRIER_SILENCED(1) && SPEC_CARRIER_SILENCED(2) && SPEC_CARRIER_SILENCED(3)))
+__CPROVER_ensures(SPEC_TOUCHNOTE_POST_SILENT(channelVolume, channelExpression))
 /* modulators are left untouched unless modulator scaling or a reduced brightness is in force */
-__CPROVER_ensures(!g_synth.m_scaleModulators && brightness == 127 ==>
-                  (SPEC_MOD_UNTOUCHED(0) && SPEC_MOD_UNTOUCHED(1) && SPEC_MOD_UNTOUCHED(2) && SPEC_MOD_UNTOUCHED(3)))
+__CPROVER_ensures(SPEC_TOUCHNOTE_POST_MODS(brightness))
 ;
 #endif
